@@ -88,7 +88,7 @@ def run_case(case):
     except Exception as e:
         return r.bad(f'C01/encode-exception/{kind}/{_exc_sig(e)}', f'{e!r}')
     # the caller's own objects are inputs, not scratch space: build a second packet from the SAME name object
-    if case.get('reuse') and case['signer']['kind'] not in ('ecdsa',):
+    if case.get('reuse') and case['signer']['kind'] not in ('ecdsa',) and case['name_rep'] % 10 not in (8, 9):
         try:
             name_obj = P.name_in_rep(case['name'], case['name_rep'])
             before = _snapshot(name_obj)
@@ -108,9 +108,9 @@ def run_case(case):
                                                           None if m_['final_block_id'] is None else bytes.fromhex(m_['final_block_id']))
                     wires.append(bytes(make_data(name_obj, mi, payload, K.make_signer(case['signer']))))
             if _snapshot(name_obj) != before:
-                r.bad(f'C01/caller-name-object-modified/{kind}', f'rep {case["name_rep"] % 7}: {before} -> {_snapshot(name_obj)}')
+                r.bad(f'C01/caller-name-object-modified/{kind}', f'rep {case["name_rep"] % 10}: {before} -> {_snapshot(name_obj)}')
             if wires[0] != wire or wires[1] != wire:
-                r.bad(f'C01/second-packet-from-same-name-object-differs/{kind}', f'rep {case["name_rep"] % 7}')
+                r.bad(f'C01/second-packet-from-same-name-object-differs/{kind}', f'rep {case["name_rep"] % 10}')
         except Exception as e:
             r.bad(f'C01/reuse-exception/{kind}/{_exc_sig(e)}', f'{e!r}')
         if r.violations:
